@@ -370,10 +370,77 @@ func c19Core(run *mon.Run) {
 			run.Count("storms", 1)
 		}
 	}
+	c19VerifyStorm(run)
 	for _, op := range c19Ops {
 		run.Shape("op|" + op)
 		run.Require(run.Counter("calls."+op) >= int64(min(200, calls/20)) || run.ViolationCount() > 0, "fewer than 200 concurrent calls of "+op)
 	}
+}
+
+// c19VerifyStorm: a dense storm of the single most common read-only call. 16 goroutines with their own
+// keys verify, in lockstep-free loops, signatures over TWO alternating messages through one shared
+// expand_message hasher: the right message must give true, the other one false. State that the C layer
+// keeps between calls (a memo of the last hash point, a scratch buffer) is invisible to the race
+// detector and only shows as a wrong verdict under this kind of traffic.
+func c19VerifyStorm(run *mon.Run) {
+	iters := run.Pick(1500, 20000)
+	if sc := os.Getenv("VERIF_C19_SCALE"); sc != "" {
+		var f float64
+		fmt.Sscan(sc, &f)
+		iters = int(float64(iters) * f)
+	}
+	const G = 16
+	r0 := run.Rand("verify-storm")
+	xof := crypto.NewExpandMsgXOFKMAC128("c19-verify-storm")
+	msgs := [2][]byte{mon.RandBytes(r0, 40), mon.RandBytes(r0, 41)}
+	type kp struct {
+		pk   crypto.PublicKey
+		sigs [2]crypto.Signature
+	}
+	keys := make([]kp, G)
+	for g := range keys {
+		sk := skFromInt(randScalar(r0))
+		keys[g].pk = sk.PublicKey()
+		for m := range msgs {
+			keys[g].sigs[m], _ = sk.Sign(msgs[m], xof)
+		}
+	}
+	var wg sync.WaitGroup
+	var wrongReject, wrongAccept, errs atomic.Int64
+	for g := 0; g < G; g++ {
+		wg.Add(1)
+		go func(g int) {
+			defer wg.Done()
+			defer run.Protect("c19 verify storm")
+			for i := 0; i < iters; i++ {
+				m := (g + i) & 1
+				if i%3 == 2 {
+					m = g & 1 // several goroutines stay on one message while others alternate
+				}
+				ok, err := keys[g].pk.Verify(keys[g].sigs[m], msgs[m], xof)
+				if err != nil {
+					errs.Add(1)
+				} else if !ok {
+					wrongReject.Add(1)
+				}
+				if i%4 == 0 {
+					ok, err = keys[g].pk.Verify(keys[g].sigs[m], msgs[1-m], xof)
+					if err != nil {
+						errs.Add(1)
+					} else if ok {
+						wrongAccept.Add(1)
+					}
+				}
+			}
+			run.Eval(iters + iters/4)
+			run.Count("verify-storm.calls", iters+iters/4)
+		}(g)
+	}
+	wg.Wait()
+	if wrongReject.Load() > 0 || wrongAccept.Load() > 0 || errs.Load() > 0 {
+		run.Violate("C19:result-differs:verify-storm", fmt.Sprintf("16 goroutines verifying over two alternating messages: %d valid signatures rejected, %d signatures of the other message accepted, %d errors (each call returns the right verdict when run alone)", wrongReject.Load(), wrongAccept.Load(), errs.Load()), map[string]any{"iterations_per_goroutine": iters})
+	}
+	run.Shape("verify-storm")
 }
 
 // C19: race-freedom of read-only / thread-safe operations.
